@@ -68,7 +68,7 @@ func scriptedWorkloads(tier string, seed int64) []WLSpec {
 			mk("W2-reader-deletes", o, pub(3), pub(3), pub(3), pub(3), pub(3), pub(2), del("reader-middle"), del("reader-first"), del("reader-last"), del("reader-all"), pub(2), del("reader-first"))
 			// W3 head deletes, each followed by publishes
 			o3 := defOpts(cfg, 600)
-			mk("W3-head-deletes", o3, pub(4), del("head-middle"), pub(2), del("head-first"), pub(3), del("head-tail"), pub(3), del("head-first-tail"), pub(2), del("head-all"), pub(2), pub(1), del("head-tail"), WLStep{Kind: "sync"})
+			mk("W3-head-deletes", o3, pub(4), del("head-middle"), pub(2), del("head-first"), pub(3), del("head-tail"), pub(3), WLStep{Kind: "sync"}, del("head-first-tail"), pub(2), del("head-all"), pub(2), pub(1), del("head-tail"), WLStep{Kind: "sync"})
 			// W4 version migration
 			other := 3 - v
 			oe := o
@@ -734,6 +734,14 @@ func (w *walker) onMarker(ln []byte) {
 			if e.Err == "" && e.Next > a.water {
 				a.water = e.Next
 			}
+		case "tear":
+			// the earlier power loss that the tear stands for took the newest message (the cut is
+			// shorter than any record and lies above the watermark): it is legitimately gone and its
+			// offset will be assigned again
+			if e.Err == "" && b.Target != "index" && len(a.base) > 0 && a.base[len(a.base)-1].Offset == a.next-1 && a.next-1 >= a.water {
+				a.base = a.base[:len(a.base)-1]
+				a.next--
+			}
 		}
 		a.inflight, a.end = nil, nil
 		a.opts = w.curOpts
@@ -884,6 +892,11 @@ func (jc *judgeCtx) report(j *imageJob, prop, symptom, what string) {
 	what = "[" + symptom + "] " + what
 	if prop == "C06" {
 		sig = fmt.Sprintf("crashmon|power|%s|after=%s|%s", j.allowed.inflightName(), j.after, symptomClass(symptom))
+		if j.allowed.inflight != nil && j.allowed.inflight.Kind == "delete" && overlapping(j.fs) {
+			// the same state as finding D8 of C05, reached here because directory operations are
+			// durable in program order
+			sig = "crashmon|power|delete|overlap(old and rebased segment both present)"
+		}
 	}
 	var files []string
 	for _, n := range j.fs.Names() {
@@ -1135,6 +1148,27 @@ func runCrashmon(cfg *RunCfg, rep *Reporter, cov *Cov, ev *Evidence) {
 		for i := 0; i < nc; i++ {
 			o := defOpts(allCfgs[i%4], []int64{300, 2000, 100000}[i%3])
 			specs = append(specs, WLSpec{Seed: cfg.Seed*31 + int64(i), Name: fmt.Sprintf("CS%d-%s", i, o.Cfg()), Steps: []WLStep{{Kind: "open", Opts: &o}, {Kind: "concsync", N: 25, V: 1 + i%3}, {Kind: "close"}}})
+		}
+	}
+	if cfg.Property == "C06" {
+		// a head segment torn by an earlier power loss (unsynced bytes of the last batch cut off), then
+		// the recovery itself under the power-loss model
+		nt := 6
+		if thorough {
+			nt = 24
+		}
+		for i := 0; i < nt; i++ {
+			o := defOpts(allCfgs[i%4], []int64{2000, 150}[i/4%2])
+			o.NewVer = []int{2, 2, 1}[i%3]
+			orr := o
+			orr.Recover = true
+			target := "log"
+			if i%6 == 5 {
+				target = "index"
+			}
+			specs = append(specs, WLSpec{Seed: cfg.Seed*37 + int64(i), Name: fmt.Sprintf("TR%d-%s-v%d-%s", i, o.Cfg(), o.NewVer, target), Steps: []WLStep{
+				{Kind: "open", Opts: &o}, {Kind: "publish", N: 3}, {Kind: "sync"}, {Kind: "publish", N: 2 + i%2}, {Kind: "die"},
+				{Kind: "tear", N: []int{1, 5, 17, 3}[i%4], Target: target}, {Kind: "open", Opts: &orr}, {Kind: "publish", N: 1}, {Kind: "sync"}, {Kind: "close"}}})
 		}
 	}
 	if cfg.Scale < 1 {
